@@ -2,7 +2,7 @@
 # tools/run_mutants.sh CNN [pattern]  — run the quick check against every mutants/CNN/*.diff (in parallel, 4 at a time)
 pid=$1; pat=${2:-*}
 mkdir -p .work/mutruns
-ls mutants/$pid/$pat.diff 2>/dev/null | grep -v -i "fix\|proposed" | xargs -P 4 -I{} bash -c '
+ls mutants/$pid/$pat.diff 2>/dev/null | grep -v -i "fix\|proposed\|/stale/" | xargs -P 4 -I{} bash -c '
   f={}; n=$(basename $f .diff); out=.work/mutruns/'$pid'_$n.txt
   start=$(date +%s)
   tools/with_mutant.sh $f ./check '$pid' > $out 2>&1; rc=$?
